@@ -706,6 +706,31 @@ func init() {
 					if c07check(c, box, line, tol, true) {
 						c.Nontrivial(h.Mix(hashP(line), h.HashFloats(box[:]...)))
 					}
+					if r.P(1, 4) {
+						// the same scene in another unit (every number times 2^k, exact, far from overflow and underflow): the
+						// same pieces in the new unit, bit for bit, with either option
+						k := r.Range(1, 400)
+						if r.Bool() {
+							k = -k
+						}
+						f := math.Ldexp(1, k)
+						b1, b2 := boundOf(box[0], box[1], box[2], box[3]), boundOf(box[0]*f, box[1]*f, box[2]*f, box[3]*f)
+						l1 := pToLS(line)
+						l2 := make(orb.LineString, len(l1))
+						for i, p := range l1 {
+							l2[i] = orb.Point{p[0] * f, p[1] * f}
+						}
+						for _, open := range []bool{false, true} {
+							o1, o2 := clip.LineString(b1, l1.Clone(), clip.OpenBound(open)), clip.LineString(b2, l2, clip.OpenBound(open))
+							c.Evals(2)
+							want := refProject(refmodel.Copy(o1), func(p orb.Point) orb.Point { return orb.Point{p[0] * f, p[1] * f} })
+							if !refmodel.EqualBits(o2, want) {
+								c.Fail("", "the same scene in another unit (all numbers times a power of two) is clipped differently", map[string]interface{}{"case": c07case{box, line, open}, "power_of_two": k, "pieces": sv(o1), "pieces_in_the_other_unit": sv(o2)})
+								break
+							}
+						}
+						c.Count("scenes_repeated_in_another_unit", 1)
+					}
 					if c.WantSample() {
 						c.Sample(c07case{box, line, false})
 					}
